@@ -32,6 +32,7 @@ type pshape struct {
 	Hlen  int    `json:"hlen"`
 	Plen  int    `json:"plen"`
 	App   string `json:"app"`
+	Sha   string `json:"sha"`
 }
 
 type outcome struct {
@@ -238,9 +239,19 @@ func srcIP(class string, rng *rand.Rand, u *vh.Universe) netip.Addr {
 // buildFrame turns an abstract shape into bytes.  Every byte the shape does not determine is
 // random; fields are written only as far as the frame reaches (truncated shapes).
 // wellFormed = true keeps the free header bytes canonical (version nibble, fragment word).
-func buildFrame(s *pshape, rng *rand.Rand, u *vh.Universe, wellFormed bool) []byte {
+func buildFrame(s *pshape, rng *rand.Rand, u *vh.Universe, wellFormed bool, fill string) []byte {
 	f := &frameBuilder{b: make([]byte, s.Flen)}
 	rng.Read(f.b)
+	switch fill { // spec: FreeByteFills
+	case "zero":
+		for i := range f.b {
+			f.b[i] = 0
+		}
+	case "ones":
+		for i := range f.b {
+			f.b[i] = 0xff
+		}
+	}
 	// destination: anything
 	switch rng.Intn(4) {
 	case 0:
@@ -299,12 +310,23 @@ func buildFrame(s *pshape, rng *rand.Rand, u *vh.Universe, wellFormed bool) []by
 			f.put16(o+6, 1+rng.Intn(2))
 		}
 		f.put(o+4, byte(s.Hlen), byte(s.Plen))
-		if rng.Intn(4) != 0 {
-			f.put(o+8, sm...)
-		} else {
-			f.put(o+8, u.MAC("m"+strconv.Itoa(7+rng.Intn(3)))...) // sender hardware address differs from the Ethernet source
-		}
 		ip := srcIP(s.Sip, rng, u).As4()
+		switch s.Sha {
+		case "own": // the sender fields name the session's own station although another station transmits
+			f.put(o+8, vh.OwnMAC...)
+			ip = u.Cfg.HostIP.As4()
+		case "router":
+			f.put(o+8, vh.RouterMAC...)
+			ip = u.Cfg.RouterIP.As4()
+		case "other":
+			f.put(o+8, u.MAC("m"+strconv.Itoa(7+rng.Intn(3)))...)
+		default:
+			if rng.Intn(4) != 0 {
+				f.put(o+8, sm...)
+			} else {
+				f.put(o+8, u.MAC("m"+strconv.Itoa(7+rng.Intn(3)))...) // sender hardware address differs from the Ethernet source
+			}
+		}
 		f.put(o+14, ip[:]...)
 	}
 	return f.b
@@ -496,3 +518,89 @@ func be(b []int) uint64 {
 }
 
 var _ = binary.BigEndian
+
+// ---- frames derived from a case (spec: PrefixTransforms) -----------------------------------------
+
+func swapBytes(b []byte, i, j, n int) {
+	if i+n > len(b) || j+n > len(b) {
+		return
+	}
+	for k := 0; k < n; k++ {
+		b[i+k], b[j+k] = b[j+k], b[i+k]
+	}
+}
+
+// l4Offset: where the layer-4 header of a decodable IP frame starts, and its protocol (-1: none).
+func l4Offset(s *pshape) (int, int) {
+	switch s.Path {
+	case "ip4":
+		if s.Ihl >= 5 {
+			return 14 + 4*s.Ihl, s.Proto
+		}
+	case "ip6":
+		return 54, s.Proto
+	}
+	return -1, -1
+}
+
+// reverseFrame: the frame the peer would answer with: MAC, IP addresses and ports swapped.
+func reverseFrame(data []byte, s *pshape) []byte {
+	b := append([]byte{}, data...)
+	swapBytes(b, 0, 6, 6)
+	switch s.Path {
+	case "ip4":
+		swapBytes(b, 26, 30, 4)
+	case "ip6":
+		swapBytes(b, 22, 38, 16)
+	case "arp":
+		swapBytes(b, 22, 32, 10)
+	}
+	if off, proto := l4Offset(s); off > 0 && (proto == 17 || proto == 6) {
+		swapBytes(b, off, off+2, 2)
+	}
+	return b
+}
+
+// sameTuple: the same 5-tuple carrying other payload bytes.
+func sameTuple(data []byte, s *pshape, rng *rand.Rand) []byte {
+	b := append([]byte{}, data...)
+	off, proto := l4Offset(s)
+	if off < 0 {
+		off = 14
+	} else if proto == 17 {
+		off += 8
+	} else if proto == 6 {
+		off += 20
+	} else {
+		off += 8
+	}
+	if off < len(b) {
+		rng.Read(b[off:])
+	}
+	return b
+}
+
+// otherAddresses: the same ports between other IP addresses.
+func otherAddresses(data []byte, s *pshape, rng *rand.Rand, u *vh.Universe) []byte {
+	b := append([]byte{}, data...)
+	switch s.Path {
+	case "ip4":
+		if len(b) >= 34 {
+			a := u.IP("a" + strconv.Itoa(40+rng.Intn(10))).As4()
+			copy(b[26:30], a[:])
+			rng.Read(b[30:34])
+		}
+	case "ip6":
+		if len(b) >= 54 {
+			a := u.IP("l" + strconv.Itoa(40+rng.Intn(10))).As16()
+			copy(b[22:38], a[:])
+			rng.Read(b[40:54])
+		}
+	case "arp":
+		if len(b) >= 32 {
+			a := u.IP("a" + strconv.Itoa(40+rng.Intn(10))).As4()
+			copy(b[28:32], a[:])
+		}
+	}
+	return b
+}
